@@ -10,6 +10,4 @@ def calc_ast_hash(a: ast.AST) -> str:
     including the input datasets
     """
 
-    b = bytearray()
-    b.extend(map(ord, ast.dump(a)))
-    return hashlib.md5(b).hexdigest()
+    return hashlib.md5(ast.dump(a).encode("utf-8")).hexdigest()
